@@ -3,6 +3,11 @@
 import json
 ALL = ["C%02d" % i for i in range(1, 21)]
 CHECKS = {
+ "C14": dict(
+   technique="bounded-exhaustive enumeration of (strictly valid policy set x partial view x consistent completion): partial views are obtained by erasing parts (principal/resource id, context, per-entity attrs/ancestors/tags/existence) of concrete environments; TPE by the real code; every concrete environment that the library's own consistency checks accept is a completion and is evaluated by the real concrete evaluator; permission queries compared with brute force",
+   text="Model checking in the small-scope sense: for every policy set and every partial view of the bounded space, all consistent concrete completions are enumerated; definite decisions must equal the concrete decision on each, each residual policy must be satisfied/unsatisfied/erroring exactly when its original is, all views of the response (policies, policy_set, get_policy, residual_policies, reauthorize) must present the same residuals, and query_resource/query_principal/query_action must equal brute-force authorization over the store. Soundness of residual simplifications quantifies over completions, which shape assertions cannot discharge but enumeration can.",
+   note="Trusted base: the real concrete evaluator/authorizer (checked in C01/C02), the library's check_consistency as the definition of 'consistent'. Finding F1 (policy_set returned originals) was reproduced by this check and repaired by a fix: commit in /repo.",
+   design="§3 C14, §8"),
  "C04": dict(
    technique="explicit-state BFS (stateright) to fixpoint over cedar_policy::Entities histories (add/upsert/remove with all batches of size 1 and ordered size 2 over 3-4 uids incl. self and dangling parents), every transition executed on the real store in lock-step with a parent-graph reference model; plus exhaustive from_entities over all parent graphs x insertion orders and all 2^9 x 2^9 hand-built stores for EnforceAlreadyComputed",
    text="Explicit-state model checking of the real implementation: the reachable state space of the entity store over a 3-4 uid universe is finite and is explored completely; each transition calls the real API once and the canonical state read back from the implementation is compared with the reference model (direct parents, indirect ancestors = strict reachability, disjointness), Err iff the resulting graph is cyclic, failed ops change nothing, and for all ordered pairs ancestors()/is_ancestor_of/`in` through the Authorizer equal reachability. History-quantified claims about incrementally maintained closures are exactly what exhaustive state exploration decides.",
